@@ -14,8 +14,9 @@ package crypto
 // the peer's bytes.
 //@ func readMore
 //@   requires conn != nil && n >= 0 && m >= 0 && n <= 1<<20 && m <= 1<<20 && len(buf) <= 1<<20
-//@   modifies consumed(conn), buf[__]
+//@   modifies consumed(conn), buf[__], ioFailed(conn)
 //@   ensures  [enough] $r1 == nil ==> len($r0) >= n
+//@   ensures  [nospurious] $r1 != nil ==> ioFailed(conn)
 //@   ensures  [exact]  len($r0) == old(len(buf)) + (consumed(conn) - old(consumed(conn)))
 //@   ensures  [cap]    len($r0) <= max(old(len(buf)), max(n, m))
 //@   ensures  [prefix] forall k int :: 0 <= k && k < old(len(buf)) ==> $r0[k] == old(buf[k])
